@@ -236,6 +236,15 @@ def c17_setup_checks(seed, tier, cov):
             steps.append(["market index after a third component was added", got1, avg(comps, lambda m: m.get_market_price())])
             got2 = idx.compute_fundamental_index()
             steps.append(["fundamental index after a third component was added", got2, avg(comps, lambda m: m.get_fundamental_price())])
+            try:
+                idx._add_market(comps[rnd.randrange(3)])          # a component twice: refused ...
+                steps.append(["a component registered twice was accepted", 1.0, 0.0])
+            except ValueError:
+                pass
+            got3 = idx.compute_market_index()                      # ... and the refusal leaves the index what it was
+            steps.append(["market index after a refused duplicate registration", got3, avg(comps, lambda m: m.get_market_price())])
+            got4 = idx.compute_fundamental_index()
+            steps.append(["fundamental index after a refused duplicate registration", got4, avg(comps, lambda m: m.get_fundamental_price())])
             bad = [x for x in steps if abs(x[1] - x[2]) > 1e-9 * max(1.0, abs(x[2]))]
         except Exception as e:  # noqa
             bad = [["raised", repr(e)[:160], None]]
